@@ -1,6 +1,7 @@
 package harness
 
 import (
+	"bytes"
 	"errors"
 	"testing"
 	"time"
@@ -79,11 +80,12 @@ func propExpiryBounds(c *Case) {
 	c.Bubble(func() {
 		c.SeedJitter()
 
-		be := newCaseBackend(c, kind, cache.Config{
+		cfg := cache.Config{
 			TimeToLive: cfgTTL, ExpirationJitter: jit,
 			// the janitor never runs here; how long ago an entry expired must not change what Read reports
 			DeleteExpiredJobInterval: 2 * farFuture, DeleteExpiredAfter: []time.Duration{2 * farFuture, 0, time.Second}[c.Pick("DeleteExpiredAfter", 3)],
-		})
+		}
+		be := newCaseBackend(c, kind, cfg)
 		ref := newRefMap(cfgTTL, jit)
 		n := c.Int("writes", 1, 4)
 
@@ -129,7 +131,16 @@ func propExpiryBounds(c *Case) {
 				c.Class("explicit-zero-ttl-inside-ttl-context")
 			}
 
-			err := be.Write(wctx, k, val)
+			var err error
+
+			// Store is Write with the default TTL
+			if ctxTTL == 0 && wctx == bg && be.HasLoadStore() && c.Weighted("via-Store", 2, 1) == 1 {
+				be.Store(k, val)
+				c.Class("written-via-Store")
+			} else {
+				err = be.Write(wctx, k, val)
+			}
+
 			poison()
 			c.Assert(err == nil, "write-error", "Write returned %v", err)
 
@@ -172,6 +183,19 @@ func propExpiryBounds(c *Case) {
 			} else {
 				c.Assert(e >= lo && e <= hi, "jitter-band", "expiry offset %d outside [T(1-J/2), T(1+J/2)] = [%d, %d]",
 					e-t0.UnixNano(), lo-t0.UnixNano(), hi-t0.UnixNano())
+			}
+
+			// the entry may reach its reader through a dump restored into a fresh instance: same expiry
+			if c.Weighted("read-from-restored-copy", 4, 1) == 1 {
+				var buf bytes.Buffer
+
+				_, derr := be.Dump(&buf)
+				be2 := newCaseBackend(c, kind, cfg)
+				_, rerr := be2.Restore(&buf)
+				c.Assert(derr == nil && rerr == nil, "dump-restore-error", "Dump/Restore = %v / %v", derr, rerr)
+
+				be = be2
+				c.Class("read-from-restored-copy")
 			}
 
 			now := time.Now().UnixNano()
